@@ -82,9 +82,9 @@ class C09(Check):
                     if idx < 0 or (cl["scope"], cl["branch"]) != key:
                         idx = 4000000000    # obtained something that is not on the branch the API draws from
                     obs.append("(%d%%nat, %s)" % (tid[k], cN(idx)))
-            out.append("{| c_n0 := %s; c_cached := %s; c_threads := %s;\n     c_sched := %s;\n     c_obs := %s; c_strict := %s |}" % (
+            out.append("{| c_n0 := %s; c_cached := %s; c_threads := %s;\n     c_sched := %s;\n     c_obs := %s; c_mem_after := %s; c_disk_after := %s; c_strict := %s |}" % (
                 cN(b["n0"]), cbool(b["cached"]), clist(threads), clist(labels), clist(obs),
-                cbool(i.get("kind") != "stress")))
+                cN(b["mem_after"]), cN(b["disk_after"]), cbool(i.get("kind") != "stress")))
         return out
 
     def render_cases(self, cases):
